@@ -153,7 +153,7 @@ class MH(ProposalBasedSampler):
 
             # display iterations
             self._print_progress(s+2,Ns) #s+2 is the sample number, s+1 is index assuming x0 is the first sample
-
+            self._call_callback(samples[:, s+1], s+1)
 
         # remove burn-in
         samples = samples[:, Nb:]
